@@ -104,11 +104,14 @@ struct ShadowPolicy {
 		else {
 			// page-aligned, deliberately at varying offsets relative to the superblock size (including exactly aligned)
 			uintptr_t al = (base + SB - 1) & ~(uintptr_t)(SB - 1);
-			switch(st.rng.below(4)) {
+			switch(st.rng.below(6)) {
 			case 0: base = al; break;                                                 // already superblock-aligned
 			case 1: base = al + PAGE <= (uintptr_t)raw + slack ? al + PAGE : al; break; // just past an aligned address
 			case 2: base = al >= (uintptr_t)raw + PAGE ? al - PAGE : al; break;         // one page before
-			default: base = ((uintptr_t)raw + PAGE - 1) & ~(uintptr_t)(PAGE - 1); break;
+			case 3: base = ((uintptr_t)raw + PAGE - 1) & ~(uintptr_t)(PAGE - 1); break;
+			// the one-argument map() promises no alignment at all (an arena or malloc-backed policy): bases that are not even page-aligned
+			case 4: base = al + 64 <= (uintptr_t)raw + slack ? al + 64 : al; count("policy_map_bases_not_page_aligned"); break; // 64 bytes past a superblock boundary
+			default: base = (uintptr_t)raw + 64 * (1 + st.rng.below(PAGE / 64 - 1)); count("policy_map_bases_not_page_aligned"); break;
 			}
 			if(base < (uintptr_t)raw) base = al;
 		}
